@@ -4,7 +4,12 @@ Model  : coq/Sched/ParFor.v (a parallel-for as schedule + per-thread scratch), c
          over scratch cells with the discipline "never read a cell before writing it in the same iteration"),
          coq/Sched/Kernels.v (hand-written skeletons of mdtraj's per-frame loops), coq/Sasa/Model.v (the full SASA
          kernel, the one loop that carries a buffer), coq/Gen/SchedSasa.v (the SASA skeleton regenerated from
-         sasa.cpp on every run + the variables written by all threads of an omp parallel region).
+         sasa.cpp on every run + the variables written by all threads of an omp parallel region),
+         coq/Sched/FrameLoop.v (serial frame loops with carried cursors) and coq/Gen/SchedKernels.v: one FrameLoop term per
+         per-frame loop / per-call kernel of dssp.cpp, geometry.cpp, kernels/*.h, center_sse.h, neighbors.cpp,
+         dridkernels.cpp, moments.cpp, regenerated on every run by harness/props/C08_scan.py with the obligation that every
+         term is disciplined (state declared outside the loop and not re-initialised per frame, a value frozen before the
+         loop from a per-frame array, a per-frame pointer that is not advanced, static accumulators: obligation fails).
 Theorems: coq/Props/C08.v.
 Tie    : the skeletons are hand abstractions; what ties them to the compiled code is this sweep: every per-frame
          analysis is computed on a trajectory, on every frame alone and on a permuted trajectory, hashed per frame
@@ -31,7 +36,8 @@ RULE = ("(environment, trajectory, analysis) triples: environment = OMP_NUM_THRE
         "trajectory, every frame alone, a permuted trajectory and a repeated call are hashed per frame and compared for "
         "equality; non-trivial = trajectory has >= 2 frames and more frames than one thread's share for some thread "
         "(threads < frames) or a permutation that moves the frame; distinct by hash of the triple")
-TRUSTED = ["harness/impl/sched_impl.py (calls mdtraj's public API on fresh copies, hashes raw result bytes per frame)",
+TRUSTED = ["harness/props/C08_scan.py (C/C++ frame-loop scanner: flattening, callee effect table, per-frame parameter names)",
+           "harness/impl/sched_impl.py (calls mdtraj's public API on fresh copies, hashes raw result bytes per frame)",
            "harness/props/C08.py (environment sweep, comparison of hashes, the regex translator of sasa.cpp's loop skeleton "
            "and of the variables written inside omp parallel regions)",
            "the kernel skeletons of coq/Sched/Kernels.v are hand abstractions of the C++/Cython loops (not derived from the source, "
@@ -406,8 +412,11 @@ def sweep(ctx, trajs, envs, analyses, repeats, perm_seed):
     nf = {t["id"]: n_frames_of(t) for t in trajs}
     stats = {"triples": 0, "hash_comparisons": 0}
     dead = set()           # analyses that killed / hung the interpreter: reported once, then left out
-    for env in envs:
+    all_trajs = trajs
+    for ei, env in enumerate(envs):
         live = [a for a in analyses if a not in dead]
+        # quick tier: the cell-mix trajectories (periodic analyses only) go through every second environment
+        trajs = [t for t in all_trajs if not (ctx.tier == "quick" and t.get("only") and ei % 2 == 1 and len(envs) > 2)]
         try:
             res = run_env(ctx, env, trajs, live, repeats, perm_seed, timeout=300 if ctx.tier == "quick" else 900)
         except (RuntimeError, subprocess.TimeoutExpired) as e:
@@ -440,7 +449,7 @@ def sweep(ctx, trajs, envs, analyses, repeats, perm_seed):
                               "perm_seed": perm_seed, "pair": b}, observed="hashes differ", expected="bit-identical",
                              tags={"analysis": a, "kind": "parallel_flag", "explained_by": None})
             for name, rec in rr.items():
-                case = {"env": env, "traj": [t for t in trajs if t["id"] == tid][0], "analysis": name,
+                case = {"env": env, "traj": [t for t in all_trajs if t["id"] == tid][0], "analysis": name,
                         "repeats": repeats, "perm_seed": perm_seed}
                 F = nf[tid]
                 thr = int(env["OMP_NUM_THREADS"])
